@@ -69,6 +69,12 @@ CLAIMED = {
    text="Bounded model checking of what is decidable: exact symmetry of both distance matrices, the clamped spherical cosine formula with argument exactly 1 on the diagonal, clamp result in [-1,1] for every float32 value the arithmetic can produce, Euclidean distance = closed form (non-negative root of the squared sum), zero diagonal and triangle inequality in exact arithmetic, nearest-node lookup returns a minimiser, rectangular grids enumerate the Cartesian product in the documented order, node weights are cos / cos^2 of the node's own latitude (structural equality of uninterpreted terms) or 1.",
    note="Bounds: N<=3 (4 thorough) nodes, dim<=2 (3). NOT decided (outside this family): the numerical error bounds 2^-10 rad / 2^-20 relative and the approximate triangle inequality for angles -- they concern rounding of transcendental functions. region_indices outside.",
    ref="DESIGN.md §3 C12"),
+ "C16": dict(
+   engine="P",
+   technique="proxy-value symbolic execution of the real EventSeries methods with symbolic event times, lag and window (exhaustive forking over coincidence patterns with solver feasibility checks), z3 (LRA) per path; sat models replayed on the real methods",
+   text="Bounded model checking of the relations the statement lists: for concrete event patterns at symbolic increasing time stamps (simultaneous events across series included) and symbolic lag / taumax, event_synchronization is non-negative, exchanges its two outputs when the series are exchanged, is invariant under a common time shift and (taumax = inf) under time rescaling; event_coincidence_analysis rates lie in [0,1], exchange consistently and are shift invariant; the N x N analysis matrix equals the pairwise values under every symmetrisation option for ES and ECA; make_event_matrix marks exactly the samples beyond the value / median (NumPy quantile model).",
+   note="Bounds: <=4 events per series at T=5 (5 at T=6 thorough), sampled pattern pairs (VERIF_SEED), N=3 for the matrix, T<=3 for thresholding. The closed counting formula with the library-specific double-counting correction is not re-stated as an oracle (it would demand more than the statement); significance tests (Monte Carlo) outside.",
+   ref="DESIGN.md §3 C16"),
 }
 NA_DEFAULT = "check not built yet in this round (see DESIGN.md §6 for the planned obligation)"
 def main():
